@@ -213,6 +213,8 @@ def check(spec, ctx):
     want = ("ok", frozenset()) if exp == allc else ("circ", frozenset(allc - exp))
     ctx.event(f"expected={want[0]}:{len(want[1])}stuck")
     iters = max(c.calls for c in cs.values())
+    if spec.get("shared_names"):
+        ctx.event("inputs-and-outputs-share-names")
     offsets = len({c["start"] for c in spec["comps"]}) > 1
     ctx.nontrivial(iters >= 3 or (want[0] == "circ" and exp) or offsets)
     if offsets:
@@ -312,7 +314,24 @@ def shape(draw):
                 o["info"] = "rule_in:" + draw(st.sampled_from(c["ins"]))["name"]
             elif r < 9 and c["ins"]:
                 o["info"] = "after_in:" + draw(st.sampled_from(c["ins"]))["name"]
-    return {"comps": comps, "links": list(draw(st.permutations(links))), "order": list(draw(st.permutations(names)))}
+    spec = {"comps": comps, "links": list(draw(st.permutations(links))), "order": list(draw(st.permutations(names)))}
+    if draw(st.integers(0, 2)) == 0:
+        spec = _shared_names(spec)
+    return spec
+
+
+def _shared_names(spec):
+    """inputs and outputs are separate name spaces: input k and output k of every component get the same name s<k>"""
+    ren = lambda x: "s" + x[1:]  # noqa: E731
+
+    def ref(m):
+        return m.split(":")[0] + ":" + ren(m.split(":")[1]) if ":" in m else m
+
+    comps = []
+    for c in spec["comps"]:
+        comps.append(dict(c, ins=[dict(i, name=ren(i["name"]), info=ref(i["info"])) for i in c["ins"]],
+                          outs=[dict(o, name=ren(o["name"]), info=ref(o["info"]), data=ref(o["data"])) for o in c["outs"]]))
+    return {"comps": comps, "links": [[a, ren(ao), b, ren(bi)] for a, ao, b, bi in spec["links"]], "order": spec["order"], "shared_names": True}
 
 
 @st.composite
